@@ -1,9 +1,9 @@
 package scen
 
 import (
-	"math"
 	"context"
 	"fmt"
+	"math"
 	"os"
 	"sort"
 	"strconv"
